@@ -267,6 +267,10 @@ type Exec struct {
 	forkSites    map[string]int
 	bootstrap    bool
 	shaState     map[*value][]value
+	drawPolicy   value
+	forkSmallTables bool
+	crossCheck   bool
+	Fallbacks    int
 }
 
 func (ex *Exec) noteAbort(why string) {
@@ -320,9 +324,21 @@ func (ex *Exec) check(extra *smt.Term, deciding bool) (smt.Result, map[string]ui
 		msg := ex.solver.LastErr
 		panic(pathEnd{"unknown", "solver error: " + msg})
 	}
+	if r == smt.Unknown && ex.second != nil {
+		// portfolio: ask the second solver when the first one gives up
+		ex.second.Reset()
+		for _, p := range ex.pc {
+			ex.second.Assert(p)
+		}
+		r, m = ex.second.Check(extra, ex.ctx.Vars, true)
+		if ex.second.LastErr != "" {
+			r = smt.Unknown
+		}
+		ex.Fallbacks++
+	}
 	if deciding {
 		ex.DecidingQ++
-		if ex.second != nil && r != smt.Unknown {
+		if ex.crossCheck && ex.second != nil && r != smt.Unknown {
 			// replay the whole pc on the second solver
 			ex.second.Reset()
 			for _, p := range ex.pc {
@@ -930,10 +946,18 @@ func (i *interpreter) indexRead(base []value, idx sym) value {
 		// non-scalar elements: concretize the index
 		return base[i.concInt(idx)]
 	}
+	allConc := true
 	for _, e := range base {
 		if ke, ok := kindOfValue(e); !ok || ke != k {
 			return base[i.concInt(idx)]
 		}
+		if isSym(e) {
+			allConc = false
+		}
+	}
+	if ex.forkSmallTables && allConc && n <= 4 {
+		// small constant table (e.g. the operator table): case split instead of an ite
+		return base[i.concInt(idx)]
 	}
 	if w := idx.t.W; w < 63 && n > 1<<w {
 		n = 1 << w // higher elements are unreachable for this index type
